@@ -195,7 +195,33 @@ def t_config_fields(k):
     return {"prec": "f32", "cfg": True, "callees": [seta], "main": main}
 
 
-TEMPLATES = [t_window_on_alloc, t_config_fields, t_window_of_alloc, t_else_then_more, t_dependent_alloc, t_rmw_prefix, t_triangular_alloc, t_reduce_beyond, t_config_chain, t_maybe_zero_bound, t_masked_callee]
+def t_control_divmod(k):
+    """floor division / modulo with possibly negative numerators and products of modulo terms in
+    CONTROL positions: loop bounds, if conditions, call arguments, config writes"""
+    c1, c2 = 3 + k % 3, 2 + (k // 3) % 3
+    bump = {
+        "name": "bump",
+        "args": [_arg("dst", "window", dims=["8"], written=True), _arg("q", "index", range=(0, 7)), _arg("v", "window", dims=["1"], written=False)],
+        "preds": ["q >= 0 and q <= 7"],
+        "body": [["reduce", "dst", ["q"], "v[0]"]],
+    }
+    body = [
+        ["for", "i", "0", "8", [
+            ["for", "j", "0", f"4 - (i - {c1}) % 4", [["reduce", "y", ["j"], "x[i]"]], "seq"],
+            ["call", "bump", ["y[0:8]", f"(i - {c1}) % 4", "x[i:i + 1]"]],
+            ["if", f"(i - {c1}) / {c2} < 0", [["reduce", "y", ["7"], "1.0"]], [["reduce", "y", ["6"], "1.0"]]],
+            ["for", "j", "0", f"2 * (n % 4) + 1", [["reduce", "y", ["5"], "x[j % 8]"]], "seq"],
+            ["if", f"{c2} * ((n + i) % 3) > 2", [["reduce", "y", ["4"], "2.0"]], []],
+        ], "seq"],
+        ["wcfg", "CfgA", "a", f"(n - {c1 + 2}) % 4"],
+        ["wcfg", "CfgA", "b", f"(n - 7) / {c2} + 4"],
+        ["if", "CfgA.a + CfgA.b > 4", [["reduce", "y", ["3"], "1.0"]], []],
+    ]
+    main = {"name": "foo", "args": [_arg("n", "size"), _arg("x", "tensor", dims=["8"]), _arg("y", "tensor", dims=["8"])], "preds": ["n <= 8"], "body": body}
+    return {"prec": "f32", "cfg": True, "callees": [bump], "main": main}
+
+
+TEMPLATES = [t_window_on_alloc, t_config_fields, t_control_divmod, t_window_of_alloc, t_else_then_more, t_dependent_alloc, t_rmw_prefix, t_triangular_alloc, t_reduce_beyond, t_config_chain, t_maybe_zero_bound, t_masked_callee]
 
 
 def templates():
@@ -210,7 +236,7 @@ def programs_or_templates(pct=25, **opts):
     return st.one_of(templates(), *[programs(**opts) for _ in range(n)])
 
 
-def single_step_cases(op_names, val, params=(0, 1), sites=4, variants=((0, 0), (1, 1), (2, 5)), extra=None):
+def single_step_cases(op_names, val, params=(0, 1), sites=4, variants=((0, 0), (1, 1), (2, 5), (3, 7)), extra=None):
     """every template x every op x the first `sites` candidate sites x a few parameter variants,
     as one-step schedules (JSON cases in the C01 format; `extra` appends per-step fields)"""
     ops = sorted(set(op_names))
